@@ -47,7 +47,7 @@ def _execute_probes():
 
     # (1) a returned value with exactly the declared structure
     node = PythonNode(name="verif_r")
-    task = TaskWithoutPath(name="verif_t", function=lambda: 5, produces={"return": node})
+    task = TaskWithoutPath(name="verif_t", function=lambda **_kw: 5, produces={"return": node})
     try:
         pytask_execute_task(session=session, task=task)
         strict = False
